@@ -17,6 +17,10 @@ Confs_ab == {Conf(HC_ab, Order_ab, lc, 2) : lc \in {"one", "all", "asap"}}
 Confs_ab_one == {Conf(HC_ab, Order_ab, "one", 2)}
 Confs_adr == {Conf(HC_adr, Order_adr, lc, 2) : lc \in {"one", "all"}}
 Confs_lim == {Conf(HC_lim, Order_lim, "asap", 2)}
+HC_ad == [a |-> Hdl({"create", "update"}), d |-> Hdl({"delete"})]
+Confs_ad == {Conf(HC_ad, <<"a", "d">>, "asap", 2)}
+HC_ar == [a |-> Hdl({"create", "update"}), r |-> Hdl({"resume"})]
+Confs_ar == {Conf(HC_ar, <<"a", "r">>, "asap", 2)}
 NoDoors == {}
 AllDoors == {"kill", "lost", "late", "stop"}
 LateOnly == {"late"}
